@@ -349,22 +349,25 @@ def check_defaults(obs, ro, ref):
 
 
 def check_retry_timing(obs, ro, prog):
-    """C12: between body_raise(k) and body_start(k+1) of one execution at least `delay` virtual
-    seconds elapse; attempts are contiguous."""
+    """C12: between body_raise(k) and the next body_start of the SAME execution (no on_node_start in
+    between) at least `delay` virtual seconds elapse."""
     out = []
     run = ro.tag
-    last_raise = {}
+    pending = {}
     n_checked = 0
     for r in obs.trace:
         if r['run'] != run:
             continue
-        if r['k'] == 'body_raise':
-            last_raise[(r['node'])] = r
-        elif r['k'] == 'body_start' and r['attempt'] > 0:
-            node = prog['nodes'][r['node']]
-            delay = (node.get('retry') or {}).get('delay') or 0
-            pr = last_raise.get(r['node'])
+        k = r['k']
+        if k == 'body_raise':
+            pending[r['node']] = r
+        elif k == 'cb_node_start':
+            pending.pop(r['node'], None)
+        elif k == 'body_start':
+            pr = pending.pop(r['node'], None)
             if pr is not None:
+                node = prog['nodes'][r['node']]
+                delay = (node.get('retry') or {}).get('delay') or 0
                 n_checked += 1
                 if r['vt'] - pr['vt'] < delay - 1e-9:
                     out.append(F(['C12'], 'retry_delay_too_short', node=r['node'], waited=r['vt'] - pr['vt'],
